@@ -1,6 +1,6 @@
 (* C13 — the glue around sympy: what the printer prints is a d-decimal rounding of an expression that has exactly
    the value of sympy's tree, and it is built from binary + * / only. *)
-From Coq Require Import List String Ascii Bool ZArith QArith Qabs Qround Lqa Lia DecimalString DecimalPos DecimalZ FinFun.
+From Coq Require Import List String Ascii Bool ZArith QArith Qabs Qround Qpower Lqa Lia DecimalString DecimalPos DecimalZ FinFun.
 From Verif Require Import Base.Result Base.Str Spec.Poly Model.SymbolicGlue Proofs.C13_Poly.
 Import ListNotations.
 Open Scope string_scope.
@@ -736,4 +736,133 @@ Proof.
   induction l as [|v l IH]; intros given; simpl; [eauto|].
   destruct (str_in v (map fst given)); [apply IH|].
   destruct (fresh_name_total (symbol_name v) (map snd given)) as (n & ->). simpl. apply IH.
+Qed.
+
+Open Scope Q_scope.
+(* ------------------------------------------------------------------ str(Float): the 15-digit decimal is close *)
+Lemma q10_pos z : 0 < q10 z.
+Proof. unfold q10. apply Qpower_0_lt. reflexivity. Qed.
+
+Lemma q10_succ z : q10 (z + 1) == q10 z * (10 # 1).
+Proof. unfold q10. rewrite Qpower_plus by (intros H; discriminate H). reflexivity. Qed.
+
+Lemma q10_pred z : q10 (z - 1) == q10 z / (10 # 1).
+Proof.
+  assert (E : q10 z == q10 (z - 1 + 1)) by (replace (z - 1 + 1)%Z with z by lia; reflexivity).
+  rewrite E, q10_succ. field.
+Qed.
+
+(* x * 10^e is invariant; x >= 1 *)
+Lemma ilog_up_spec fuel : forall x e, 1 <= x -> x < q10 (Z.of_nat fuel) ->
+  let e' := ilog_up fuel x e in
+  q10 e' <= x * q10 e /\ x * q10 e < q10 (e' + 1).
+Proof.
+  induction fuel as [|f IH]; intros x e H1 Hf; cbn [ilog_up].
+  - exfalso. change (q10 (Z.of_nat 0)) with (q10 0) in Hf. unfold q10 in Hf. simpl in Hf. lra.
+  - destruct (Qle_bool (10 # 1) x) eqn:E.
+    + apply Qle_bool_iff in E.
+      assert (H1' : 1 <= x / (10 # 1)). { apply Qle_shift_div_l; [reflexivity|]. lra. }
+      assert (Hf' : x / (10 # 1) < q10 (Z.of_nat f)).
+      { apply Qlt_shift_div_r; [reflexivity|]. rewrite <- q10_succ. rewrite Nat2Z.inj_succ in Hf. exact Hf. }
+      specialize (IH (x / (10 # 1)) (e + 1)%Z H1' Hf'). cbv zeta in IH.
+      assert (Ei : x / (10 # 1) * q10 (e + 1) == x * q10 e) by (rewrite q10_succ; field).
+      rewrite Ei in IH. exact IH.
+    + assert (L : x < 10 # 1).
+      { destruct (Qlt_le_dec x (10 # 1)) as [L|L]; [exact L|]. apply Qle_bool_iff in L. congruence. }
+      pose proof (q10_pos e) as P. split.
+      * rewrite <- (Qmult_1_l (q10 e)) at 1. apply Qmult_le_compat_r; [exact H1|lra].
+      * rewrite q10_succ. rewrite (Qmult_comm (q10 e)). apply Qmult_lt_compat_r; assumption.
+Qed.
+
+Lemma ilog_down_spec fuel : forall x e, 0 < x -> x < 10 # 1 -> q10 (- Z.of_nat fuel) <= x ->
+  let e' := ilog_down fuel x e in
+  q10 e' <= x * q10 e /\ x * q10 e < q10 (e' + 1).
+Proof.
+  assert (Base : forall x e, 1 <= x -> x < 10 # 1 -> q10 e <= x * q10 e /\ x * q10 e < q10 (e + 1)).
+  { intros x e H1 H10. pose proof (q10_pos e) as P. split.
+    - rewrite <- (Qmult_1_l (q10 e)) at 1. apply Qmult_le_compat_r; [exact H1|lra].
+    - rewrite q10_succ. rewrite (Qmult_comm (q10 e)). apply Qmult_lt_compat_r; assumption. }
+  induction fuel as [|f IH]; intros x e H0 H10 Hf; cbn [ilog_down].
+  - apply Base; [|exact H10]. unfold q10 in Hf. simpl in Hf. exact Hf.
+  - destruct (Qle_bool 1 x) eqn:E.
+    + apply Qle_bool_iff in E. apply Base; assumption.
+    + assert (L : x < 1).
+      { destruct (Qlt_le_dec x 1) as [L|L]; [exact L|]. apply Qle_bool_iff in L. congruence. }
+      assert (Hf' : q10 (- Z.of_nat f) <= x * (10 # 1)).
+      { rewrite Nat2Z.inj_succ in Hf. replace (- Z.succ (Z.of_nat f))%Z with (- Z.of_nat f - 1)%Z in Hf by lia.
+        rewrite q10_pred in Hf. pose proof (q10_pos (- Z.of_nat f)) as P.
+        set (q := q10 (- Z.of_nat f)) in *.
+        assert (Hq : q == q / (10 # 1) * (10 # 1)) by field.
+        rewrite Hq. apply Qmult_le_compat_r; [exact Hf|discriminate]. }
+      assert (H0' : 0 < x * (10 # 1)) by lra. assert (H10' : x * (10 # 1) < 10 # 1) by lra.
+      specialize (IH (x * (10 # 1)) (e - 1)%Z H0' H10' Hf'). cbv zeta in IH.
+      assert (Ei : x * (10 # 1) * q10 (e - 1) == x * q10 e) by (rewrite q10_pred; field).
+      rewrite Ei in IH. exact IH.
+Qed.
+
+Lemma ilog10_spec a : q10 (-400) <= a -> a < q10 400 ->
+  q10 (ilog10 a) <= a /\ a < q10 (ilog10 a + 1).
+Proof.
+  intros L U. unfold ilog10. pose proof (q10_pos (-400)) as P.
+  assert (E0 : a * q10 0 == a) by (unfold q10; simpl; ring).
+  destruct (Qle_bool 1 a) eqn:E.
+  - apply Qle_bool_iff in E. pose proof (ilog_up_spec 400 a 0 E U) as S. cbv zeta in S. rewrite E0 in S. exact S.
+  - assert (L1 : a < 1).
+    { destruct (Qlt_le_dec a 1) as [L1|L1]; [exact L1|]. apply Qle_bool_iff in L1. congruence. }
+    assert (H0 : 0 < a) by lra. assert (H10 : a < 10 # 1) by lra.
+    pose proof (ilog_down_spec 400 a 0 H0 H10 L) as S. cbv zeta in S. rewrite E0 in S. exact S.
+Qed.
+
+Lemma rhu_close x : Qabs (x - inject_Z (rhu x)) <= 1 # 2.
+Proof.
+  unfold rhu. pose proof (Qfloor_le (x + (1 # 2))) as L. pose proof (Qlt_floor (x + (1 # 2))) as U.
+  rewrite inject_Z_plus in U. change (inject_Z 1) with 1 in U.
+  apply Qabs_case; intros; lra.
+Qed.
+
+(* relative error at most 5e-15 *)
+Theorem sig15_close v : (v == 0 \/ (q10 (-400) <= Qabs v /\ Qabs v < q10 400)) ->
+  Qabs (sig15 v - v) <= (5 # 1) * q10 (-15) * Qabs v.
+Proof.
+  intros H. unfold sig15. destruct (Qeq_bool v 0) eqn:Z.
+  - apply Qeq_bool_iff in Z. rewrite Z. simpl. unfold q10. simpl. lra.
+  - destruct H as [H|[L U]]; [apply Qeq_bool_iff in H; congruence|].
+    cbv zeta. set (a := Qabs v) in *. destruct (ilog10_spec a L U) as [E1 E2].
+    set (e := ilog10 a) in *. set (s := q10 (14 - e)).
+    pose proof (q10_pos (14 - e)) as Ps. fold s in Ps. pose proof (q10_pos e) as Pe.
+    pose proof (rhu_close (a * s)) as R. set (n := rhu (a * s)) in *.
+    (* | n/s - a | <= 1/(2 s) <= 5e-15 * a *)
+    assert (Es : s * q10 e == q10 14).
+    { unfold s, q10. rewrite <- Qpower_plus by (intros X; discriminate X). replace (14 - e + e)%Z with 14%Z by lia. reflexivity. }
+    assert (B : Qabs (inject_Z n / s - a) <= (5 # 1) * q10 (-15) * a).
+    { assert (E : inject_Z n / s - a == - (a * s - inject_Z n) / s) by (field; lra).
+      rewrite E. unfold Qdiv. rewrite Qabs_Qmult, Qabs_opp, (Qabs_pos (/ s)) by (apply Qlt_le_weak, Qinv_lt_0_compat; exact Ps).
+      apply Qle_trans with ((1 # 2) * / s).
+      - apply Qmult_le_compat_r; [exact R|]. apply Qlt_le_weak, Qinv_lt_0_compat. exact Ps.
+      - (* 1/(2s) = 10^e / (2 * 10^14) <= a * 5e-15 *)
+        assert (Ei : / s == q10 e / q10 14). { rewrite <- Es. field. split; lra. }
+        rewrite Ei. assert (V14 : q10 14 == 100000000000000 # 1) by (unfold q10; reflexivity).
+        assert (V15 : q10 (-15) == 1 # 1000000000000000) by (unfold q10; reflexivity).
+        rewrite V14, V15.
+        assert (G : (1 # 2) * (q10 e / (100000000000000 # 1)) == (5 # 1) * (1 # 1000000000000000) * q10 e) by field.
+        rewrite G. apply Qmult_le_l; [reflexivity|exact E1]. }
+    destruct (Qle_bool 0 v) eqn:Sg; rewrite Qred_correct.
+    + apply Qle_bool_iff in Sg. assert (Ev : v == a) by (unfold a; rewrite Qabs_pos; [reflexivity|exact Sg]).
+      assert (G : inject_Z n / s - v == inject_Z n / s - a) by (rewrite Ev; reflexivity).
+      rewrite G. exact B.
+    + assert (N : v < 0).
+      { destruct (Qlt_le_dec v 0) as [N|N]; [exact N|]. apply Qle_bool_iff in N. congruence. }
+      assert (Ev : v == - a) by (unfold a; rewrite Qabs_neg by lra; ring).
+      assert (G : - (inject_Z n / s) - v == - (inject_Z n / s - a)) by (rewrite Ev; ring).
+      rewrite G, Qabs_opp. exact B.
+Qed.
+
+(* hence the reference value of a Float atom is within 5e-15 (relative) of its exact binary value *)
+Corollary href_close d v : (v == 0 \/ (q10 (-400) <= Qabs v /\ Qabs v < q10 400)) ->
+  Qabs (href d v (sig15 v) - v) <= (5 # 1) * q10 (-15) * Qabs v.
+Proof.
+  intros H. unfold href. destruct (Z.eqb _ 0); [|apply sig15_close; exact H].
+  assert (E : v - v == 0) by ring. rewrite E. simpl.
+  pose proof (q10_pos (-15)) as P. pose proof (Qabs_nonneg v) as N. 
+  apply Qmult_le_0_compat; [|exact N]. apply Qmult_le_0_compat; [discriminate|]. apply Qlt_le_weak. exact P.
 Qed.
